@@ -27,6 +27,7 @@ type vHeader struct {
 	BlockNo, Confirms                                                                   uint64
 	Timestamp                                                                           int64
 	Hash                                                                                string // Block.Hash field (F8 cases)
+	EmptyNotNil                                                                         bool   // absent byte fields as empty non-nil slices
 }
 
 type vTx struct {
@@ -170,6 +171,17 @@ func unhex(s string) []byte {
 func hx(b []byte) string { return hex.EncodeToString(b) }
 
 func (h *vHeader) header() *BlockHeader {
+	if h.EmptyNotNil {
+		e := func(s string) []byte {
+			if b := unhex(s); b != nil {
+				return b
+			}
+			return []byte{}
+		}
+		return &BlockHeader{ChainID: e(h.ChainID), PrevBlockHash: e(h.Prev), BlockNo: h.BlockNo, Timestamp: h.Timestamp,
+			BlocksRootHash: e(h.BlocksRoot), TxsRootHash: e(h.TxsRoot), ReceiptsRootHash: e(h.ReceiptsRoot),
+			Confirms: h.Confirms, PubKey: e(h.PubKey), CoinbaseAccount: e(h.Coinbase), Sign: e(h.Sign), Consensus: e(h.Consensus)}
+	}
 	return &BlockHeader{ChainID: unhex(h.ChainID), PrevBlockHash: unhex(h.Prev), BlockNo: h.BlockNo, Timestamp: h.Timestamp,
 		BlocksRootHash: unhex(h.BlocksRoot), TxsRootHash: unhex(h.TxsRoot), ReceiptsRootHash: unhex(h.ReceiptsRoot),
 		Confirms: h.Confirms, PubKey: unhex(h.PubKey), CoinbaseAccount: unhex(h.Coinbase), Sign: unhex(h.Sign),
